@@ -2,7 +2,7 @@
 From Coq Require Import String Lia ZifyBool ZifyN.
 From TS Require Import Model.Str Model.Outcome Model.Unicode Model.Syntax Model.Attrs Model.TargetOs
                        Model.Rename Model.Types Model.Parse.
-From TS Require Import Spec.SerdeCase Spec.C16Spec Spec.Serde Spec.TargetOsRule.
+From TS Require Import Spec.SerdeCase Spec.C16Spec Spec.Serde Spec.TargetOsRule Spec.C03Spec.
 From TS Require Import Proofs.C16 Proofs.C13 Proofs.FrontAttrs Proofs.FrontTypes.
 Local Open Scope N_scope.
 Local Notation length := List.length (only parsing).
@@ -378,16 +378,6 @@ Proof.
 Qed.
 
 (* ---------- C03: the visitor is a fold of collect_result over the annotated, accepted items ---------- *)
-Fixpoint leaves (it : item) : list item :=
-  match it with
-  | INest inner => (fix go (l : list item) := match l with [] => [] | x :: r => leaves x ++ go r end) inner
-  | IUse _ => []
-  | x => [x]
-  end.
-Definition leaves_of (l : list item) : list item := flat_map leaves l.
-
-Definition leaf_attrs (it : item) : list attr :=
-  match it with IStruct a _ _ _ | IEnum a _ _ _ | IType a _ _ _ | IConst a _ _ _ => a | _ => [] end.
 Definition parse_leaf (it : item) : outcome ritem :=
   match it with
   | IStruct a i g fs => parse_struct uc tstr T a i g fs
